@@ -73,6 +73,73 @@ Section LinCodeListFacts.
       repeat split; try assumption. rewrite Ev. reflexivity.
   Qed.
 
+  (* ---- the proof determines the values (C02): an accepted value is <v, a> for the vector v the proof carries ---- *)
+  Lemma l_check_e_value enc wf n_cols cext a b value pf r idx :
+    l_check_e enc wf n_cols cext a b value pf r idx = Ok true -> value = ip (lf_v pf) a.
+  Proof.
+    unfold l_check_e. intros H.
+    destruct (negb (length (lf_v pf) =? n_cols)%nat); [discriminate|].
+    match type of H with context [bind ?X _] => destruct X as [out| |] end; cbn [bind] in H; try discriminate.
+    destruct (path_loop cext (lf_cols pf) idx (lf_paths pf)) as [u| |]; cbn [bind] in H; try discriminate.
+    match type of H with context [bind ?X _] => destruct X as [u2| |] end; cbn [bind] in H; try discriminate.
+    injection H as H. apply FL_eqb in H. symmetry. exact H.
+  Qed.
+  Lemma l_check_item_value wf it : l_check_item wf it = Ok true ->
+    exists a b, li_ab it = Ok (a, b) /\ li_value it = ip (lf_v (li_pf it)) a.
+  Proof.
+    unfold l_check_item. intros H.
+    destruct (negb (length (lf_v (li_pf it)) =? li_n_cols it)%nat); [discriminate|].
+    match type of H with context [bind ?X _] => destruct X as [out| |] end; cbn [bind] in H; try discriminate.
+    destruct (path_loop (li_cext it) (lf_cols (li_pf it)) (li_idx it) (lf_paths (li_pf it))) as [u| |]; cbn [bind] in H; try discriminate.
+    destruct (li_ab it) as [[a b]| |]; cbn [bind fst snd] in H; try discriminate.
+    exists a, b. split; [reflexivity|]. exact (l_check_e_value _ _ _ _ _ _ _ _ _ _ H).
+  Qed.
+  Lemma lc_check_one_value wf cm pt value pf tape rest :
+    lc_check_one tensor wf cm pt value pf tape = Ok (true, rest) ->
+    exists a b, tensor pt (cm_n_cols cm) (cm_n_rows cm) = Ok (a, b) /\ value = ip (lf_v pf) a.
+  Proof.
+    unfold lc_check_one. intros H.
+    destruct (cm_t cm) as [t| |]; cbn [bind] in H; try discriminate.
+    destruct (negb (length (lf_v pf) =? cm_n_cols cm)%nat); [discriminate|].
+    match type of H with context [bind ?X _] => destruct X as [rr| |] end; cbn [bind] in H; try discriminate.
+    destruct (pop_indices (cm_n_ext cm) t (snd rr)) as [ix| |]; cbn [bind] in H; try discriminate.
+    match type of H with context [bind ?X _] => destruct X as [bb| |] eqn:Ei end; cbn [bind] in H; try discriminate.
+    injection H as -> _.
+    destruct (l_check_item_value wf _ Ei) as (a & b & Hab & Hv). cbn [li_ab li_value li_pf] in Hab, Hv.
+    exists a, b. split; assumption.
+  Qed.
+
+  (* two accepted value lists for the same commitments, point, proofs and transcript coincide *)
+  Theorem lc_check_list_values wf : forall cms pt vs1 vs2 pfs tape r1 r2,
+    length vs1 = length cms -> length vs2 = length cms ->
+    lc_check_list tensor wf cms pt vs1 pfs tape = Ok (true, r1) ->
+    lc_check_list tensor wf cms pt vs2 pfs tape = Ok (true, r2) -> vs1 = vs2.
+  Proof.
+    induction cms as [|cm cms IH]; intros pt vs1 vs2 pfs tape r1 r2 L1 L2 H1 H2.
+    - destruct vs1; [|cbn in L1; lia]. destruct vs2; [|cbn in L2; lia]. reflexivity.
+    - destruct vs1 as [|v1 vs1]; [cbn in L1; lia|]. destruct vs2 as [|v2 vs2]; [cbn in L2; lia|].
+      cbn [lc_check_list] in H1, H2. destruct pfs as [|pf pfs]; [discriminate|].
+      destruct (lc_check_one tensor wf cm pt v1 pf tape) as [[b1 t1]| |] eqn:E1; cbn [bind fst snd] in H1; try discriminate.
+      destruct (lc_check_one tensor wf cm pt v2 pf tape) as [[b2 t2]| |] eqn:E2; cbn [bind fst snd] in H2; try discriminate.
+      destruct b1; [|discriminate]. destruct b2; [|discriminate].
+      destruct (lc_check_one_value wf cm pt v1 pf tape t1 E1) as (a1 & b1' & Ha1 & Hv1).
+      destruct (lc_check_one_value wf cm pt v2 pf tape t2 E2) as (a2 & b2' & Ha2 & Hv2).
+      rewrite Ha1 in Ha2. injection Ha2 as <- <-.
+      assert (Et : t1 = t2).
+      { (* the transcript consumed does not depend on the claimed value *)
+        revert E1 E2. unfold lc_check_one.
+        destruct (cm_t cm) as [t| |]; cbn [bind]; try discriminate.
+        destruct (negb (length (lf_v pf) =? cm_n_cols cm)%nat); [discriminate|].
+        match goal with |- context [bind ?X _] => destruct X as [rr| |] end; cbn [bind]; try discriminate.
+        destruct (pop_indices (cm_n_ext cm) t (snd rr)) as [ix| |]; cbn [bind]; try discriminate.
+        intros E1 E2.
+        match type of E1 with context [bind ?X _] => destruct X as [bb1| |] end; cbn [bind] in E1; try discriminate.
+        match type of E2 with context [bind ?X _] => destruct X as [bb2| |] end; cbn [bind] in E2; try discriminate.
+        injection E1 as _ <-. injection E2 as _ <-. reflexivity. }
+      subst t2. f_equal; [rewrite Hv1, Hv2; reflexivity|].
+      exact (IH pt vs1 vs2 pfs t1 r1 r2 ltac:(cbn in L1; lia) ltac:(cbn in L2; lia) H1 H2).
+  Qed.
+
   Definition R_lc (it : LCm * list (list F)) (c : LCm) : Prop := c = fst it /\ honest_cm (fst it) (snd it).
 
   (* the whole list on the shared transcript *)
